@@ -18,6 +18,7 @@ import copy
 import itertools
 import random
 
+import c04entry
 import c04time
 import env
 import pipeline
@@ -29,7 +30,7 @@ from saml2_tophat import BINDING_HTTP_POST, BINDING_HTTP_REDIRECT, BINDING_SOAP,
 from saml2_tophat.saml import SCM_BEARER, SCM_SENDER_VOUCHES, SCM_HOLDER_OF_KEY
 
 CLAIM = {
-    "text": "Coq theorems (Props/C04.v) over the SP pipeline model, for every integer clock value, every allowance, every subset of present bounds and every content: acceptance implies that no NotOnOrAfter (Conditions, EVERY bearer SubjectConfirmationData whether retained or not, SessionNotOnOrAfter) is more than the allowance in the past, no NotBefore more than the allowance in the future, Conditions NotBefore <= NotOnOrAfter, a bearer confirmation with NotBefore > NotOnOrAfter is never retained, and IssueInstant is strictly within a day plus the allowance; the session expiry returned is SessionNotOnOrAfter when present, else the Conditions NotOnOrAfter, else 0 (lia after case analysis; unbounded Z). The same statement is proved for every binding value of parse_authn_request_response (POST/Redirect asynchop, SOAP/PAOS asynchop=False; PAOS is never accepted at all: unravel raises) and either value of the asynchop switch; one bearer confirmation out of its window at any position among any other confirmations rejects; the IssueInstant window is proved for every response kind sharing StatusResponse._verify (authn, attribute query, authn query, logout, name-id mapping, manage-name-id) over every binding, with the bearer (and, attribute query, Conditions) bounds for the query kinds; and by induction over call sequences on one long-lived SP: the configuration is unchanged, every accepted call met the windows at its own clock value, and a verdict does not depend on earlier calls. The acceptance side (inside all windows with margin => not rejected on time grounds) is covered by the grid correspondence and oracle, not by a theorem. TEXT LAYER (Model/TimeUtil.v): the step from the text of a time stamp to the compared value is modelled and proved, not trusted: the proleptic Gregorian calendar of calendar.timegm / time.gmtime (gmtime by division, no fuel), CPython's strptime expression for %Y-%m-%dT%H:%M:%SZ (4-digit year, one- or two-character fields, blank+digit day, t/z, Unicode \\d, seconds 60/61 carried by timegm), the fall-back pattern, str_to_time, instant, before / after / later_than / the IssueInstant test as comparisons of 9-tuples. Proved for ALL integers / all normalised tuples: timegm(gmtime t) = t and gmtime(timegm c) = c; the day number is strictly monotone in (year, month, day); tuple order (including the wday / yday / isdst tail) = order of instants; instant(t) reads back as gmtime t for years 1000..9999 (this platform's strftime does not pad the year); on every text str_to_time reads, before / after / later_than / the IssueInstant window equal the integer tests of the pipeline model on timegm of the parsed value (the isdst = -1 of datetime.timetuple() is what makes the window closed at the old end); an exact characterisation of the texts strptime accepts and the ranges it reads; two accepted spellings of one instant get one verdict. Tie: edge x offset x presence-subset x allowance x spelling x binding x confirmation-shape x response-kind grid (assertion plain / signed / in a signed response / encrypted; logout and manage-name-id also at an IdP) on implementation (controlled clock, seed-shuffled order on long-lived clients, explicit histories) and model; text layer: ~7000 texts (every month end of 26 years incl. 1/1000/1900/1969/1970/2000/2038/2100/2400/9999, out-of-range fields, 25 accepted and 29 refused spelling styles, other scripts' digits) through the real str_to_time and time.strptime, instants through time.gmtime / calendar.timegm / strftime, ~3000 pairs around equal instants through before / after / later_than under the controlled clock, instant(), StatusResponse.issue_instant_ok, and the measured table of \\d characters, all against the model inside coqc.",
+    "text": "Coq theorems (Props/C04.v) over the SP pipeline model, for every integer clock value, every allowance, every subset of present bounds and every content: acceptance implies that no NotOnOrAfter (Conditions, EVERY bearer SubjectConfirmationData whether retained or not, SessionNotOnOrAfter) is more than the allowance in the past, no NotBefore more than the allowance in the future, Conditions NotBefore <= NotOnOrAfter, a bearer confirmation with NotBefore > NotOnOrAfter is never retained, and IssueInstant is strictly within a day plus the allowance; the session expiry returned is SessionNotOnOrAfter when present, else the Conditions NotOnOrAfter, else 0 (lia after case analysis; unbounded Z). The same statement is proved for every binding value of parse_authn_request_response (POST/Redirect asynchop, SOAP/PAOS asynchop=False; PAOS is never accepted at all: unravel raises) and either value of the asynchop switch; one bearer confirmation out of its window at any position among any other confirmations rejects; the IssueInstant window is proved for every response kind sharing StatusResponse._verify (authn, attribute query, authn query, logout, name-id mapping, manage-name-id) over every binding, with the bearer (and, attribute query, Conditions) bounds for the query kinds; and by induction over call sequences on one long-lived SP: the configuration is unchanged, every accepted call met the windows at its own clock value, and a verdict does not depend on earlier calls. The acceptance side (inside all windows with margin => not rejected on time grounds) is covered by the grid correspondence and oracle, not by a theorem. TEXT LAYER (Model/TimeUtil.v): the step from the text of a time stamp to the compared value is modelled and proved, not trusted: the proleptic Gregorian calendar of calendar.timegm / time.gmtime (gmtime by division, no fuel), CPython's strptime expression for %Y-%m-%dT%H:%M:%SZ (4-digit year, one- or two-character fields, blank+digit day, t/z, Unicode \\d, seconds 60/61 carried by timegm), the fall-back pattern, str_to_time, instant, before / after / later_than / the IssueInstant test as comparisons of 9-tuples. Proved for ALL integers / all normalised tuples: timegm(gmtime t) = t and gmtime(timegm c) = c; the day number is strictly monotone in (year, month, day); tuple order (including the wday / yday / isdst tail) = order of instants; instant(t) reads back as gmtime t for years 1000..9999 (this platform's strftime does not pad the year); on every text str_to_time reads, before / after / later_than / the IssueInstant window equal the integer tests of the pipeline model on timegm of the parsed value (the isdst = -1 of datetime.timetuple() is what makes the window closed at the old end); an exact characterisation of the texts strptime accepts and the ranges it reads; two accepted spellings of one instant get one verdict. Tie: edge x offset x presence-subset x allowance x spelling x binding x confirmation-shape x response-kind grid (assertion plain / signed / in a signed response / encrypted; logout and manage-name-id also at an IdP) on implementation (controlled clock, seed-shuffled order on long-lived clients, explicit histories) and model; text layer: ~7000 texts (every month end of 26 years incl. 1/1000/1900/1969/1970/2000/2038/2100/2400/9999, out-of-range fields, 25 accepted and 29 refused spelling styles, other scripts' digits) through the real str_to_time and time.strptime, instants through time.gmtime / calendar.timegm / strftime, ~3000 pairs around equal instants through before / after / later_than under the controlled clock, instant(), StatusResponse.issue_instant_ok, and the measured table of \\d characters, all against the model inside coqc. OTHER ENTRY POINTS (Model/C04Entry.v): response.response_factory, authn_response, attribute_response and the classes AuthnResponse / AttributeResponse / AuthnQueryResponse / ArtifactResponse / AuthzResponse built directly, each as a function from what the caller wrote (every optional argument given or left out) to the flags the object carries; proved: every constructor chain passes on exactly the caller's flags (test is on only when the caller names test=True where that parameter exists; the allowance is the caller's, 0 / omitted = conf.accepted_time_diff for the three functions), every entry point computes verify of those same flags, and an accepted call met every window of its context at the caller's clock and allowance, for every combination of asynchop / allow_unsolicited. Tie: 26 call spellings (positional, keyword, defaults left out, the keyword set Entity builds, the ECP call) x every asynchop / allow_unsolicited combination x the clock grid (+-1 s, +-2 s, +-1 h, +-2 d, allowances 0 / 60 / 3600, presence subsets, confirmation layouts, spellings) on long-lived conf / security-context objects against the model, oracle keys lax-test-mode-without-being-asked:*, accepted-outside-window:<entry>:*, rejected-inside-window:<entry>:*, session-expiry:<entry>:*. PROCESS TIME ZONE: proved that no zone offset enters the gmtime / timegm based readings (and a _refuted witness for mktime(gmtime()) compared with timegm); every run repeats a slice of the grid (IssueInstant at one day +- 0..14 h, every other edge +- 2 s and +- k h, SP entry points, three of the direct entry points, logout / manage-name-id / attribute query) and the time_util / validate functions under TZ = UTC, Asia/Tokyo, America/New_York, Pacific/Kiritimati with a controlled clock whose datetime.now() / time.localtime() answer in local time: one verdict, the property's, in every zone (verdict-depends-on-process-time-zone:*).",
     "note": "Trusted: Coq kernel + vm_compute; pipeline / kinds models tied to the code by the grid correspondence; the controlled clock patch (self-checked each run; falls back to nothing — a defeated patch is a broken obligation); timestamps are whole seconds as in the code (fractions truncated, spellings with offsets rejected by schema validation); the text -> instant step (strptime, timegm, gmtime, tuple comparison) is modelled in Model/TimeUtil.v and tied by its own correspondence units, no longer trusted as such: what remains trusted there is that the C library's gmtime / strftime and CPython's re / int() / tuple comparison behave on ALL inputs as they do on the generated ones (years 1..9999; time_t arguments outside, non-str arguments and add_duration / parse_duration are outside the model). Equality instants are executed but not compared; bounds on non-bearer confirmations are not compared (unspecified). Outside: AuthnQuery responses ignore Conditions by design of the library (condition_ok returns True) and query kinds ignore SessionNotOnOrAfter; authz-decision responses cannot be delivered at all (no SOAP parser for them).",
     "technique": "machine-checked proof (Coq, linear arithmetic over Z, induction over call sequences) + clock-grid correspondence over bindings/kinds/histories + implementation-level oracle",
 }
@@ -37,13 +38,16 @@ TRUSTED = ["modelled: validate_on_or_after / validate_before / later_than / issu
            "controlled clock: time_util.time and time_util.datetime replaced from the harness (env.Clock, self-check on entry)",
            "modelled: time.strptime (the regular expression _strptime builds for TIME_FORMAT, read off and probed), calendar.timegm, time.gmtime, time.strftime(%Y without padding), struct_time comparison, datetime.timetuple (isdst -1), TIME_FORMAT_WITH_FRAGMENT in Model/TimeUtil.v; the table of decimal-digit characters is compared with the interpreter's on every run"]
 ASSUMPTIONS = ["whole-second resolution (as the code)", "text layer: years 1..9999 (calendar.timegm raises outside); instant round trip for years 1000..9999 (strftime writes year 999 with three digits)", "acceptance-side statement is tested, not proved",
-               "query kinds: SessionNotOnOrAfter (both) and Conditions (authn query) are not consulted by the library and not part of the tested statement"]
+               "query kinds: SessionNotOnOrAfter (both) and Conditions (authn query) are not consulted by the library and not part of the tested statement",
+               "direct entry points: tied with want_assertions_signed / want_response_signed false, request_id 0 or the matching one, no conv_info; response_factory on a message without assertions is outside (it returns the bare StatusResponse / fails on LogoutResponse.assertion)",
+               "time zone: a zone is a fixed offset at the instant in question; the four zones of the run stand for all"]
 RULE = ("authn: focus bound in {Conditions NotOnOrAfter/NotBefore, bearer SCD NotOnOrAfter/NotBefore, SessionNotOnOrAfter, IssueInstant low/high, Conditions NotBefore>NotOnOrAfter, "
         "SCD NotBefore>NotOnOrAfter} x offset of now from the edge {-2,-1,0,+1,+2,+-3600,+-2d} x allowance {0,1,60,3600,10^6} x presence subsets of the other bounds "
         "x spelling {Z,noZ,frac,fracNoZ,offset,garbage} x binding {post,soap full; redirect,paos thinned} x confirmation layout {F, F+g, g+F, and 2-3 confirmation shapes with "
         "bearer(g,gn,g0)/sender-vouches/holder-of-key companions and focus variants, every position}; kinds {attrq,authnq,logout,nim,mni} x IssueInstant low/high (+ SCD/Conditions "
         "bounds for the query kinds) x offsets x allowances x bindings, logout/mni also received by an IdP; authn also with the assertion signed / in a signed response / encrypted / encrypted+signed; non-trivial = offset within +-2 s of the edge; cells at offset 0 are 'unspecified' (run, not compared); "
         "run order shuffled by the seed on long-lived clients; explicit histories of 40 calls on fresh clients; "
+        "ENTRY POINTS (harness/c04entry.py): 26 call spellings x (asynchop, allow_unsolicited) in every combination the signature allows x focus bound x offset {-1,+1,-3600,+3600; first combination also -2,0,+2,+-2d} x allowance {0, 60 near the edge} + presence subsets / allowance 3600 / confirmation layouts / spellings; TIME ZONE: TZ in {UTC, Asia/Tokyo, America/New_York, Pacific/Kiritimati} x focus x offset {+-1,+-2, +-(h hours + 2 s), h in 0,1,4,5,9,10,13,14} through parse_authn_request_response (POST, SOAP), response_factory, AuthnResponse, AttributeResponse, logout / manage-name-id / attribute-query parsers, and time_util / validate functions at six instants (incl. around the 2026 DST changes); "
         "TEXT LAYER (harness/c04time.py): year in {1,4,100,400,999,1000,1583,1600,1700,1900,1969,1970,1972,2000,2023,2024,2026,2037,2038,2100,2400,9999,+random} x month x day in {0,1,last-1,last,last+1,29..32} "
         "x spelling style; named instants (epoch, 2^31, year ends, leap days, first / last supported second) x every accepted and refused style; hour 24 / minute 60 / second 60,61,62 / month 0,13; hand-made texts "
         "(blank+digit day, other scripts' digits in \\d and in class positions, line feeds, junk); pairs (a, b) = two spellings of t+d and t, d in {0,+-1,+-60,..,+-366 d} for later_than; (now = t+d, point) for before / after "
@@ -457,6 +461,8 @@ def run(ctx):
     ctx.correspond("response_kinds_time_grid", pipeline.IMPORTS + " Model.C04Kinds", "show_kind", "(kind * binding * cfg * response)", kind_cases, shard=250)
     run_expiry(ctx)
     run_histories(ctx, cells)
+    import sys
+    c04entry.run(ctx, sys.modules[__name__])      # the other entry points; the process time zone
 
 
 def run_expiry(ctx):
@@ -526,11 +532,29 @@ def run_histories(ctx, cells):
     ctx.correspond("call_histories", pipeline.IMPORTS + " Model.C04Kinds", "show_history", "(cfg * list call)", cases, shard=2)
 
 
+def cex_search(ctx):
+    """every disagreement of a grid unit IS a concrete input (the cell): hand it over as a replayable failure"""
+    seen = set()
+    for d in ctx.disagreements:
+        show = d.case.get("show") if isinstance(d.case, dict) else None
+        if not isinstance(show, dict) or "focus" not in show:
+            continue
+        label = show.get("entry") or "%s/%s" % (show.get("kind", "authn"), show.get("binding", "post"))
+        key = "differs-from-model:%s:%s:%s" % (d.unit, label, show["focus"])
+        if key in seen:
+            continue
+        seen.add(key)
+        ctx.oracle_fail(key, "%s: implementation %r, model %s (cell %s)" % (d.unit, d.impl, " ".join(str(d.model).split())[:160], show), show)
+
+
 def replay(ctx, payload):
     env.tool_inprocess(True)
     c = payload.get("input")
     if isinstance(c, dict) and c.get("unit") == "time":
         return c04time.replay(c)
+    if isinstance(c, dict) and c.get("unit") in ("entry", "zone", "zonetext"):
+        import sys
+        return c04entry.replay(sys.modules[__name__], c)
     print("replay cell:", c)
     if not isinstance(c, dict) or "focus" not in c or c["focus"] == "expiry":
         return 0
